@@ -12,7 +12,8 @@ from . import mapmodel as mm, docgen
 ENVELOPE = ('ISA', 'GS', 'ST', 'SE', 'GE', 'IEA', 'TA1')
 ELEMENT_KINDS = ['too-long', 'too-short', 'not-in-code-list', 'wrong-char-class', 'control-char', 'bad-date', 'bad-time',
                  'required-removed', 'not-used-filled', 'extra-element', 'extra-component', 'syntax-note', 'date-format-mismatch']
-SEGMENT_KINDS = ['unknown-segment', 'required-segment-removed', 'segment-over-max', 'loop-over-max', 'segment-out-of-place', 'loop-body-removed']
+SEGMENT_KINDS = ['unknown-segment', 'required-segment-removed', 'segment-over-max', 'loop-over-max', 'segment-out-of-place', 'loop-body-removed',
+                 'required-loop-removed', 'table-first-segment-removed']
 MALFORMED_KINDS = ['junk-segment']
 KINDS = ELEMENT_KINDS + SEGMENT_KINDS
 
@@ -225,6 +226,37 @@ def candidates(doc, kind):
             firsts = [x for x in doc.segs if x.node is s.node and x.chain[:-1] == parent_chain]
             if firsts and firsts[-1] is s:
                 out.append((i, lim - len(firsts) + 1, None))
+    elif kind == 'required-loop-removed':
+        # the only instance of a required loop taken out whole: a missing required segment that leaves every neighbour where it was
+        for i, s in enumerate(doc.segs):
+            if s.id in ENVELOPE or s.id == 'HL' or not s.chain:
+                continue
+            loop = s.chain[-1][0]
+            if loop.children[0] is not s.node or loop.type == 'wrapper' or loop.usage != 'R':
+                continue
+            if len([x for x in doc.segs if x.node is s.node and x.chain[:-1] == s.chain[:-1]]) != 1:
+                continue
+            depth = len(s.chain)
+            end = i + 1
+            while end < len(doc.segs) and len(doc.segs[end].chain) >= depth and doc.segs[end].chain[:depth] == s.chain:
+                end += 1
+            if end >= len(doc.segs) or any(x.id == 'HL' for x in doc.segs[i:end]):
+                continue
+            out.append((i, end, None))
+    elif kind == 'table-first-segment-removed':
+        # the required first segment of a table (BHT, BPR, BGN ... - first child of a HEADER/DETAIL/FOOTER wrapper, which is no
+        # X12 loop) taken out; the rest of the table stays
+        for i, s in enumerate(doc.segs):
+            if s.id in ENVELOPE or not s.chain or s.node.usage != 'R':
+                continue
+            loop = s.chain[-1][0]
+            if loop.type != 'wrapper' or loop.children[0] is not s.node:
+                continue
+            if len([x for x in doc.segs if x.node is s.node and x.chain == s.chain]) != 1 or i + 1 >= len(doc.segs):
+                continue
+            if doc.segs[i + 1].chain[:len(s.chain)] != s.chain:
+                continue          # nothing else of this table present
+            out.append((i, None, None))
     elif kind == 'loop-body-removed':
         # a loop instance cut down to its first segment, followed at once by the next instance of the same loop
         for i, s in enumerate(doc.segs):
@@ -452,6 +484,25 @@ def inject(doc, kind, loc, seed):
             # the loop instance is left with only its first segment and the same loop repeats at once
             exp['immediate_repeat'] = True
         exp.update(seg_id=None, removed=s.id, ele=None, sub=None, codes=['3'], value=None, local=False, level='seg', next_id=nxt.id)
+    elif kind == 'required-loop-removed':
+        end = loc[1]
+        loop = s.chain[-1][0]
+        depth = len(s.chain)
+        del d.segs[i:end]
+        nxt = d.segs[i]
+        slack = 0
+        for x in d.segs[i:]:
+            # sibling loops at the same map position (free order) may legitimately delay the report
+            if len(x.chain) >= depth and x.chain[:depth - 1] == s.chain[:-1] and x.chain[depth - 1][0].pos == loop.pos:
+                slack += 1
+            else:
+                break
+        exp.update(seg_id=None, removed=s.id, removed_loop=loop.id, ele=None, sub=None, codes=['3'], value=None, local=False, level='seg',
+                   next_id=nxt.id, pos_slack=slack)
+    elif kind == 'table-first-segment-removed':
+        del d.segs[i]
+        nxt = d.segs[i]
+        exp.update(seg_id=None, removed=s.id, ele=None, sub=None, codes=['3'], value=None, local=False, level='seg', next_id=nxt.id, pos_slack=0)
     elif kind == 'segment-over-max':
         extra = loc[1]
         if extra < 1:
